@@ -92,6 +92,26 @@ def alt_layer(l):
     return a
 
 
+def big_layers(layers):
+    """the same stack with every extent 2 larger (and the array sized for it): the target of assignments from a smaller field"""
+    out = [dict(l) for l in layers]
+    for i, l in enumerate(out):
+        if l["k"] in LAYOUTS:
+            l["ext"] = [e + 2 for e in l["ext"]]
+            if i + 1 < len(out) and out[i + 1]["k"] == "array":
+                if l["k"] == "strided":
+                    n = 1
+                    for e in l["ext"]:
+                        n *= e
+                else:
+                    side = 1
+                    while side < max(l["ext"]):
+                        side *= 2
+                    n = side ** len(l["ext"])
+                out[i + 1]["count"] = n
+    return out
+
+
 def same_expr(l, var):
     k = l["k"]
     if k == "clamp":
@@ -164,6 +184,13 @@ def gen(case, path, ident):
     L.append("    F f(covfie::make_parameter_pack(%s));" % ", ".join(cfg_expr(alt[i], "L%d" % i) for i in range(depth)))
     L.append("    return f;      // (storage left zero-initialised: differs from the filled field)")
     L.append("}")
+    big = big_layers([alt_layer(l) for l in layers])
+    has_big = any(l["k"] in LAYOUTS for l in layers) and layers[-1]["k"] == "array"
+    if has_big:
+        L.append("static F build_big() {      // different configuration values AND larger extents")
+        L.append("    F f(covfie::make_parameter_pack(%s));" % ", ".join(cfg_expr(big[i], "L%d" % i) for i in range(depth)))
+        L.append("    return f;")
+        L.append("}")
     L.append("")
     cs = SCALAR[ins]
     L.append("using coord_t = typename F::coordinate_t;")
@@ -219,6 +246,25 @@ def gen(case, path, ident):
             acc = "h.backend()" + ".get_backend()" * i
             L.append("      { auto c = %s.get_configuration(); vs::check(%s, \"c17/positional-helper\", \"\\\"layer\\\":%d\"); }" % (acc, same_expr(layers[i], "c"), i))
         L.append("    }")
+    # configuration read-back and rebuild of a field that was ASSIGNED its value (over a larger field of the same type): the
+    # reported configuration of every layer, the innermost array's element count included, must be the source's
+    if has_big:
+        L.append("    { F b = build_big(); b = f; check_values(b, \"c13/copy-assigned-over-a-larger-field\");")
+        for i in range(depth):
+            acc = "b.backend()" + ".get_backend()" * i
+            L.append("      { auto c = %s.get_configuration(); vs::check(%s, \"c17/configuration-readback-after-assignment\", \"\\\"layer\\\":%d\"); }" % (acc, same_expr(layers[i], "c"), i))
+        repb = ", ".join("%s.get_configuration()" % ("b.backend()" + ".get_backend()" * i) for i in range(depth))
+        L.append("      F g(covfie::make_parameter_pack(%s)); " % repb)
+        for i in range(depth):
+            acc = "g.backend()" + ".get_backend()" * i
+            L.append("      { auto c = %s.get_configuration(); vs::check(%s, \"c17/rebuilt-from-configuration-after-assignment\", \"\\\"layer\\\":%d\"); }" % (acc, same_expr(layers[i], "c"), i))
+        L.append("    }")
+    # a long-lived view: made from a field that is then moved elsewhere and whose variable is given another value; the view
+    # is a self-contained value (configuration copies + storage pointer) and keeps denoting what it was made from
+    L.append("    { F a(f); typename F::view_t v(a); F b(std::move(a)); a = build_alt();")
+    L.append("      for (auto & q : QUERIES) { auto r = v.at(mk(q.x)); std::vector<double> g; for (std::size_t k = 0; k < q.want.size(); ++k) g.push_back((double)r[k]);")
+    L.append("        vs::check(g == q.want, \"c13/view-after-owner-moved-and-variable-reused\", \"\\\"x\\\":\" + vs::vec(q.x) + \",\\\"got\\\":\" + vs::vec(g) + \",\\\"want\\\":\" + vs::vec(q.want)); }")
+    L.append("      check_values(b, \"c13/move-constructed-with-live-view\"); }")
     # ---------------- C13: the rest of the API, executed
     L.append("    { F d; (void)d; }                                            // default construction")
     L.append("    { F c1(f); check_values(c1, \"c13/copy-constructed\"); F c2(std::move(c1)); check_values(c2, \"c13/move-constructed\");")
